@@ -20,7 +20,9 @@ CH = {'a': 'a', 'amp': '&', 'eq': '=', 'quot': '"', 'apos': "'", 'lt': '<', 'gt'
       # look-alikes of the escapes the bindings themselves use
       'entamp': '&amp;', 'entlegacy': '&copy=1', 'entnum': '&#38;', 'pctseq': '%26', 'pctbad': '%zz',
       # look-alikes of the placeholders of the auto-submitting form's own template (filled in one pass: data stays data)
-      'tplaction': '{action}', 'tplrelay': '{relay_state_input}', 'tplmsg': '{saml_response_input}', 'tplempty': '{}', 'brace': '{'}
+      'tplaction': '{action}', 'tplrelay': '{relay_state_input}', 'tplmsg': '{saml_response_input}', 'tplempty': '{}', 'brace': '{',
+      # a backslash, alone and in the spellings regular-expression replacement templates interpret
+      'bslash': '\\', 'bsesc': '\\t', 'bsgroup': '\\g<0>'}
 B = {'redirect': env.BINDING_REDIRECT, 'post': env.BINDING_POST, 'soap': env.BINDING_SOAP,
      'artifact': 'urn:oasis:names:tc:SAML:2.0:bindings:HTTP-Artifact', 'paos': 'urn:oasis:names:tc:SAML:2.0:bindings:PAOS'}
 ARTIFACT = 'AAQAAMFbLinlXaCM+FIxiDwGOLAy2T71gbpO7ZhNzAgEANlB90ECfpNEVLg/=='
